@@ -83,8 +83,11 @@ func (db *ContractDB) queryTextG(vc *VC, ob *Obligation, wantModel bool, ground 
 	if n > len(vc.facts) {
 		n = len(vc.facts)
 	}
-	for _, f := range vc.facts[:n] {
+	for i, f := range vc.facts[:n] {
 		if ground && strings.HasPrefix(f, "(forall") {
+			continue
+		}
+		if ob.Kind == "vacuity" && vc.dropFacts[i] {
 			continue
 		}
 		b.WriteString("(assert ")
